@@ -194,15 +194,14 @@ def run(ctx):
     # ------------------------------------------------------------------ R15.2
     ctx.rule("R15.2", "negative-curvature fallback is a steepest-descent step: with curv < 0 and gamma = <r,r> >= 0 the fallback "
                       "position is pos + c*(-d) with c >= 0 (d is the initial residual = gradient of the quadratic at the start)", floor=2)
-    for fi, rows, name in ((e, E, "_cg"), (s, S, "_static_cg")):
-        fb = pick(rows, "pos", guard_has=["curv <"])
-        key = f"{fi.key}::fallback position"
-        if len(fb) != 1:
-            ctx.und("R15.2", key, f"{len(fb)} fallback statements", fi)
+    fx = fallback_expressions(m)
+    for which in ("eager", "compiled"):
+        if which not in fx:
+            ctx.und("R15.2", f"{CG}::{which} fallback position", "path not recognised", e)
             continue
-        v = fb[0][5]
-        verdict, why = descent_sign(v)
-        ctx.check("R15.2", key, verdict, f"{src(v)}: {why}", fi, fb[0][4].stmt)
+        fi, expr = fx[which]
+        verdict, why = fallback_step_verdict(expr)
+        ctx.check("R15.2", f"{fi.key}::fallback position is a step along the descent direction", verdict, f"{src(expr)}: {why}", fi)
 
 
 def descent_sign(v):
@@ -260,3 +259,97 @@ def descent_sign(v):
         if total == want:
             return None, "descent direction but the start position is dropped (only valid for x0=None)"
     return None, "shape not modelled"
+
+
+def fallback_step_verdict(expr, gamma_names=("previous_gamma", "gamma"), neg_names=("curv",)):
+    """expr = pos (+|-) c1*d (+|-) c2*d ...  under curv < 0, gamma >= 0.  Returns (verdict, explanation): True iff the net
+    coefficient on d is negative (a step along -d, the descent direction at the start), False if it is zero or positive."""
+    SIGN = {g: 1 for g in gamma_names}
+    SIGN.update({n: -1 for n in neg_names})
+
+    def sign(e):
+        if isinstance(e, ast.Name):
+            return SIGN.get(e.id)
+        if isinstance(e, ast.Subscript) and isinstance(e.slice, ast.Constant) and e.slice.value in ("gamma",):
+            return 1
+        if isinstance(e, ast.Constant) and isinstance(e.value, (int, float)):
+            return 0 if e.value == 0 else (1 if e.value > 0 else -1)
+        if isinstance(e, ast.UnaryOp) and isinstance(e.op, ast.USub):
+            s_ = sign(e.operand)
+            return None if s_ is None else -s_
+        if isinstance(e, ast.BinOp) and isinstance(e.op, (ast.Mult, ast.Div)):
+            a, b = sign(e.left), sign(e.right)
+            if a == 0:
+                return 0
+            return None if a is None or b is None else a * b
+        if isinstance(e, ast.Call) and call_name(e) in ("real", "float") and e.args:
+            return sign(e.args[0])
+        return None
+    terms = []  # (sign of coefficient, vector name)
+
+    def walk(e, sg):
+        if isinstance(e, ast.BinOp) and isinstance(e.op, (ast.Add, ast.Sub)):
+            walk(e.left, sg)
+            walk(e.right, sg if isinstance(e.op, ast.Add) else -sg)
+            return
+        if isinstance(e, ast.Name) and e.id == "pos" or (isinstance(e, ast.Subscript) and src(e).endswith("['pos']")):
+            terms.append(("base", "pos"))
+            return
+        if isinstance(e, ast.BinOp) and isinstance(e.op, ast.Mult):
+            for sc, vec in ((e.left, e.right), (e.right, e.left)):
+                vs = 1
+                if isinstance(vec, ast.UnaryOp) and isinstance(vec.op, ast.USub):
+                    vec, vs = vec.operand, -1
+                vn = vec.id if isinstance(vec, ast.Name) else (vec.slice.value if isinstance(vec, ast.Subscript) and isinstance(vec.slice, ast.Constant) else None)
+                if vn in ("d", "r", "j", "g"):
+                    s_ = sign(sc)
+                    terms.append((None if s_ is None else sg * vs * s_, vn))
+                    return
+        terms.append((None, "?"))
+    walk(expr, 1)
+    has_base = ("base", "pos") in terms
+    coeffs = [t for t in terms if t[0] != "base"]
+    if any(c is None for c, v in coeffs) or any(v == "?" for c, v in coeffs):
+        return None, f"terms not classified: {src(expr)}"
+    # express everything along d (r = d at the first iteration, j = -d when starting from zero)
+    net = []
+    for c, v in coeffs:
+        net.append(c if v in ("d", "r", "g") else -c)
+    if not has_base:
+        if net and all(c >= 0 for c in net) and any(c > 0 for c in net):
+            return False, "steps along +d (up the gradient of the quadratic energy) and drops the start position"
+        return None, "start position is not part of the result"
+    if all(c == 0 for c in net):
+        return False, "the fallback adds nothing to the start position: no step is taken although the first direction has negative curvature"
+    if all(c <= 0 for c in net):
+        return True, "steps along -d (descent)"
+    if all(c >= 0 for c in net):
+        return False, "steps along +d: up the gradient of the quadratic energy"
+    return None, "mixed signs"
+
+
+def fallback_expressions(m):
+    """Fully substituted fallback positions of the eager and the compiled solver (under curv < 0, first iteration, no raise)."""
+    from ..modespec import Spec
+    e = m.func(CG, "_cg")
+    s = m.func(CG, "_static_cg.cg_single_step")
+    facts = {"curv == 0.0": False, "curv < 0.0": True, "curv <= 0.0": True, "_raise_nonposdef": False, "not _raise_nonposdef": True,
+             "i > 1": False, "i <= 1": True, "name is not None": False, "info < -1": True, "resnorm is not None": True,
+             "absdelta is not None": True, "time_threshold is not None": False}
+    out = {}
+    loop = [n for n in e.node.body if isinstance(n, ast.For)]
+    if len(loop) == 1:
+        sp = Spec(m, None, e, {}, facts=facts)
+        sp.keep = {"curv", "i", "previous_gamma"}
+        sp.run(body=loop[0].body)
+        brk = [env for env, a, st in sp.breaks if isinstance(st, ast.Break)]
+        if len(brk) == 1 and "pos" in brk[0]:
+            out["eager"] = (e, brk[0]["pos"])
+    sp = Spec(m, None, s, {}, facts=facts)
+    sp.keep = {"curv", "i", "previous_gamma"}
+    sp.run()
+    if len(sp.returns) == 1 and isinstance(sp.returns[0][0], ast.Dict):
+        d = {k.value: v for k, v in zip(sp.returns[0][0].keys, sp.returns[0][0].values) if isinstance(k, ast.Constant)}
+        if "pos" in d:
+            out["compiled"] = (s, d["pos"])
+    return out
